@@ -3,7 +3,7 @@
 From Coq Require Import List ZArith Extraction ExtrOcamlBasic.
 From LMBase Require Import Res.
 From LMDense Require Import DenseModel.
-From LMFootprint Require Import FpModel FpNeon FpHistory FpCap.
+From LMFootprint Require Import FpModel FpNeon FpHistory FpCap FpUsize.
 
 Extraction Language OCaml.
 Extraction "footprint_model.ml"
@@ -18,5 +18,6 @@ Extraction "footprint_model.ml"
   fp_from_rows from_rows_rows fp_ravel fp_fill fp_sample sample_rows ext_dense
   configure_wrap_model stride row_bytes
   hstep htrace hfinal h0
-  cb_resize cb_clone cb_reserve cb_resize_uninit cb_resize_uninit_seeded alloc_score fp_score_u8_avx2_pipelined wrap_score_u8_avx2_pipelined cstep ctrace cfinal c0
+  cb_resize cb_clone cb_reserve cb_resize_uninit cb_resize_uninit_seeded alloc_score fp_score_u8_avx2_pipelined wrap_score_u8_avx2_pipelined cap_after alloc_of_score alloc_of_max alloc_of_stripe cstep ctrace cfinal cstates c0
+  score_guard_usize generic_index_overflows
   fp_encode_into_neon fp_score_f32_neon fp_score_u8_neon wrap_score_f32_neon wrap_score_u8_neon balign_mat16.
